@@ -269,6 +269,10 @@ func nilBitOf(t sipsp.HdrT) uint8 {
 	return 0
 }
 
+var c07NamedFlag = map[sipsp.HdrT]sipsp.HdrFlags{sipsp.HdrFrom: sipsp.HdrFromF, sipsp.HdrTo: sipsp.HdrToF, sipsp.HdrCallID: sipsp.HdrCallIDF, sipsp.HdrCSeq: sipsp.HdrCSeqF,
+	sipsp.HdrVia: sipsp.HdrViaF, sipsp.HdrMaxFwd: sipsp.HdrMaxFwdF, sipsp.HdrCLen: sipsp.HdrCLenF, sipsp.HdrContact: sipsp.HdrContactF, sipsp.HdrExpires: sipsp.HdrExpiresF,
+	sipsp.HdrUA: sipsp.HdrUAF, sipsp.HdrRecordRoute: sipsp.HdrRecordRouteF, sipsp.HdrRoute: sipsp.HdrRouteF, sipsp.HdrPAI: sipsp.HdrPAIF, sipsp.HdrOther: sipsp.HdrOtherF}
+
 func evalC07(cs *c07Case) (vs []*Violation) {
 	block, exp := buildBlock(cs.Lines, cs.VF, cs.Blank)
 	buf := append(append([]byte(nil), block...), "BODY-BYTES"...)
@@ -333,6 +337,14 @@ func evalC07(cs *c07Case) (vs []*Violation) {
 	}
 	if hl.PFlags != wantFlags {
 		add("type-flags-equal-types-seen", "flags", fmt.Sprintf("PFlags=%#x want %#x", hl.PFlags, wantFlags))
+	}
+	// the same set read through the exported flag names
+	var wantNamed sipsp.HdrFlags
+	for t := range first {
+		wantNamed |= c07NamedFlag[t]
+	}
+	if hl.PFlags != wantNamed {
+		add("type-flags-equal-types-seen", "exported-flag-names", fmt.Sprintf("PFlags=%#x, OR of the named flags of the types seen %#x", hl.PFlags, wantNamed))
 	}
 	// the same set through the query methods a caller uses (Test / Any / AllSet)
 	var seenT, unseenT []sipsp.HdrT
@@ -424,7 +436,7 @@ func checkC07(r *Run) {
 	r.Assume = []string{"hb=nil for every name (pure tokenisation); hb=&PHdrVals only for names whose type has no value sub-parser (the value sub-parsers have their own grammar, see C09/C10)",
 		"lone CR line ends are not followed by an LF-started blank line (inherently ambiguous)"}
 	all, generic := c07Names()
-	wss := []string{"", " ", "\t "}
+	wss := []string{"", " ", "\t ", strings.Repeat(" \t", 20)}
 	terms := []string{"\r\n", "\r", "\n"}
 	type lv struct {
 		l  hdrLineSpec
@@ -624,5 +636,5 @@ func init() {
 	}
 	register("C07", &checkDef{fn: checkC07,
 		rule:        "E4: generated well-formed header blocks (name x ws-before-colon x value form x terminator; 1-2 lines from the full menu, 3-4 from reduced menus, 60-line blocks; capacities 0,1,N-1,N,N+1,nil) through ParseHeaders; expectations by construction, cross-checked by an independent reference tokenizer; non-trivial = block with > 1 line or a multi-byte value",
-		quickBudget: 90 * time.Second, thorBudget: 10 * time.Minute})
+		quickBudget: 150 * time.Second, thorBudget: 15 * time.Minute})
 }
